@@ -10,43 +10,43 @@
 (***************************************************************************)
 EXTENDS Money
 
-U(n, k, f, oz, e2) == [name |-> n, kind |-> k, f |-> f, oz |-> oz, e2 |-> e2]
+UnitRec(n, k, f, oz, e2) == [name |-> n, kind |-> k, f |-> f, oz |-> oz, e2 |-> e2]
 
 UnitNames == {"mm", "cm", "dm", "m", "dam", "hm", "km", "in", "ft", "yard", "furlong", "mile", "mg", "cg", "dg", "g", "dag", "hg", "kg", "tonne", "oz", "lb", "st", "bit", "byte", "kb", "mb", "gb", "tb", "pb", "eb", "zb", "yb"}
 UnitOf(n) ==
-  CASE n = "mm" -> U("mm", "length", QInt(10), 0, 0)
-    [] n = "cm" -> U("cm", "length", QInt(100), 0, 0)
-    [] n = "dm" -> U("dm", "length", QInt(1000), 0, 0)
-    [] n = "m" -> U("m", "length", QInt(10000), 0, 0)
-    [] n = "dam" -> U("dam", "length", QInt(100000), 0, 0)
-    [] n = "hm" -> U("hm", "length", QInt(1000000), 0, 0)
-    [] n = "km" -> U("km", "length", QInt(10000000), 0, 0)
-    [] n = "in" -> U("in", "length", QInt(254), 0, 0)
-    [] n = "ft" -> U("ft", "length", QInt(12 * 254), 0, 0)
-    [] n = "yard" -> U("yard", "length", QInt(36 * 254), 0, 0)
-    [] n = "furlong" -> U("furlong", "length", QInt(220 * 36 * 254), 0, 0)
-    [] n = "mile" -> U("mile", "length", QInt(1760 * 36 * 254), 0, 0)
-    [] n = "mg" -> U("mg", "weight", QInt(1), 0, 0)
-    [] n = "cg" -> U("cg", "weight", QInt(10), 0, 0)
-    [] n = "dg" -> U("dg", "weight", QInt(100), 0, 0)
-    [] n = "g" -> U("g", "weight", QInt(1000), 0, 0)
-    [] n = "dag" -> U("dag", "weight", QInt(10000), 0, 0)
-    [] n = "hg" -> U("hg", "weight", QInt(100000), 0, 0)
-    [] n = "kg" -> U("kg", "weight", QInt(1000000), 0, 0)
-    [] n = "tonne" -> U("tonne", "weight", Norm(<<1, 1, 9>>), 0, 0)
-    [] n = "oz" -> U("oz", "weight", QInt(1), 1, 0)
-    [] n = "lb" -> U("lb", "weight", QInt(16), 1, 0)
-    [] n = "st" -> U("st", "weight", QInt(224), 1, 0)
-    [] n = "bit" -> U("bit", "memory", QInt(1), 0, 0)
-    [] n = "byte" -> U("byte", "memory", QInt(1), 0, 3)
-    [] n = "kb" -> U("kb", "memory", QInt(1), 0, 13)
-    [] n = "mb" -> U("mb", "memory", QInt(1), 0, 23)
-    [] n = "gb" -> U("gb", "memory", QInt(1), 0, 33)
-    [] n = "tb" -> U("tb", "memory", QInt(1), 0, 43)
-    [] n = "pb" -> U("pb", "memory", QInt(1), 0, 53)
-    [] n = "eb" -> U("eb", "memory", QInt(1), 0, 63)
-    [] n = "zb" -> U("zb", "memory", QInt(1), 0, 73)
-    [] n = "yb" -> U("yb", "memory", QInt(1), 0, 83)
+  CASE n = "mm" -> UnitRec("mm", "length", QInt(10), 0, 0)
+    [] n = "cm" -> UnitRec("cm", "length", QInt(100), 0, 0)
+    [] n = "dm" -> UnitRec("dm", "length", QInt(1000), 0, 0)
+    [] n = "m" -> UnitRec("m", "length", QInt(10000), 0, 0)
+    [] n = "dam" -> UnitRec("dam", "length", QInt(100000), 0, 0)
+    [] n = "hm" -> UnitRec("hm", "length", QInt(1000000), 0, 0)
+    [] n = "km" -> UnitRec("km", "length", QInt(10000000), 0, 0)
+    [] n = "in" -> UnitRec("in", "length", QInt(254), 0, 0)
+    [] n = "ft" -> UnitRec("ft", "length", QInt(12 * 254), 0, 0)
+    [] n = "yard" -> UnitRec("yard", "length", QInt(36 * 254), 0, 0)
+    [] n = "furlong" -> UnitRec("furlong", "length", QInt(220 * 36 * 254), 0, 0)
+    [] n = "mile" -> UnitRec("mile", "length", QInt(1760 * 36 * 254), 0, 0)
+    [] n = "mg" -> UnitRec("mg", "weight", QInt(1), 0, 0)
+    [] n = "cg" -> UnitRec("cg", "weight", QInt(10), 0, 0)
+    [] n = "dg" -> UnitRec("dg", "weight", QInt(100), 0, 0)
+    [] n = "g" -> UnitRec("g", "weight", QInt(1000), 0, 0)
+    [] n = "dag" -> UnitRec("dag", "weight", QInt(10000), 0, 0)
+    [] n = "hg" -> UnitRec("hg", "weight", QInt(100000), 0, 0)
+    [] n = "kg" -> UnitRec("kg", "weight", QInt(1000000), 0, 0)
+    [] n = "tonne" -> UnitRec("tonne", "weight", Norm(<<1, 1, 9>>), 0, 0)
+    [] n = "oz" -> UnitRec("oz", "weight", QInt(1), 1, 0)
+    [] n = "lb" -> UnitRec("lb", "weight", QInt(16), 1, 0)
+    [] n = "st" -> UnitRec("st", "weight", QInt(224), 1, 0)
+    [] n = "bit" -> UnitRec("bit", "memory", QInt(1), 0, 0)
+    [] n = "byte" -> UnitRec("byte", "memory", QInt(1), 0, 3)
+    [] n = "kb" -> UnitRec("kb", "memory", QInt(1), 0, 13)
+    [] n = "mb" -> UnitRec("mb", "memory", QInt(1), 0, 23)
+    [] n = "gb" -> UnitRec("gb", "memory", QInt(1), 0, 33)
+    [] n = "tb" -> UnitRec("tb", "memory", QInt(1), 0, 43)
+    [] n = "pb" -> UnitRec("pb", "memory", QInt(1), 0, 53)
+    [] n = "eb" -> UnitRec("eb", "memory", QInt(1), 0, 63)
+    [] n = "zb" -> UnitRec("zb", "memory", QInt(1), 0, 73)
+    [] n = "yb" -> UnitRec("yb", "memory", QInt(1), 0, 83)
 UnitsOfKind(k) == {n \in UnitNames : UnitOf(n).kind = k}
 
 RECURSIVE Pow2Q(_)
